@@ -175,6 +175,14 @@ def check(repo, tier):
     def F(qual, rule, what, msg, line=None):
         fn = repo.fn(qual)
         return Finding('C12', rule, fn.where, what, msg, fn.file, line or fn.node.lineno)
+    # results depend on the arguments only: no module-level caches in slim.py / ulam.py (a memoised decomposition keyed without one of the options returns stale cores)
+    from .p_c06 import rule_f
+    ff, nf = rule_f(repo, prop='C12')
+    ff = [f for f in ff if f.where.split('::')[0] in (SLIM, ULAM)]
+    for f in ff:
+        f.rule = 'D1' if f.where.startswith(SLIM) else 'D4'
+        run.add(f)
+    run.oblige('D1', ('no module-level state in slim / ulam',), not ff)
     entry = f'{SLIM}.slim_mme'
     variants = ('alternating', 'no single-cell reactions in cell 1', 'no reaction on bond 0', 'no reaction on the last bond', 'full lists everywhere') if tier == 'thorough' else ('alternating',)
     for d, cyclic, variant in itertools.product(orders, (False, True), variants):
